@@ -40,6 +40,7 @@ import (
 const (
 	nowEpoch       = 100  // plain cases: contents live in this epoch (deneb fork of the mock), the gater's clock too
 	otherForkDelta = 4096 // nowEpoch+4096 lies in the mock's next fork (electra from epoch 2048)
+	laterEpoch     = nowEpoch + otherForkDelta // "laterFork" objects live wholly in this epoch (slot and target epoch)
 	unknownVIdx    = 999
 )
 
@@ -86,6 +87,8 @@ func (w *world) place(side string) {
 		w.lay = layout{slot: eth2p0.Slot(uint64(w.forkAt)*w.spe - 1), tgt: w.forkAt}
 	case "after": // slot in the first slot of the new fork, target epoch before it
 		w.lay = layout{slot: eth2p0.Slot(uint64(w.forkAt) * w.spe), tgt: w.forkAt - 1}
+	case "later": // the whole object in the mock's next fork version
+		w.lay = layout{slot: eth2p0.Slot(laterEpoch*w.spe + 3), tgt: laterEpoch}
 	default:
 		w.lay = layout{slot: eth2p0.Slot(nowEpoch*w.spe + 3), tgt: nowEpoch}
 	}
@@ -199,6 +202,11 @@ func newWorld(t *testing.T, n, v int) *world {
 	}
 	if w.forkAt == 0 || w.forkAt > nowEpoch+otherForkDelta {
 		t.Fatalf("setup: the mock's fork schedule has no activation in (%d, %d]", nowEpoch, nowEpoch+otherForkDelta)
+	}
+	for _, f := range forks.Data { // exactly ONE activation between the two epochs the objects are placed in
+		if f.Epoch > w.forkAt && f.Epoch <= laterEpoch {
+			t.Fatalf("setup: the mock's fork schedule has a second activation (epoch %d) in (%d, %d]", f.Epoch, nowEpoch, laterEpoch)
+		}
 	}
 	w.place("")
 	for i := 0; i < n; i++ {
@@ -389,6 +397,16 @@ func TestExec(t *testing.T) {
 		case len(s) == 2 && drv.Str(c["alt"]) != "foreignSig":
 			tr.Emit(drv.Step{"ev": "Submit", "c": c})
 			err = w.run(tr, parseCase(c))
+		case isForkSeq(s[1:]):
+			// calls on the SAME component instances with fresh, individually signed objects that lie in different
+			// fork versions: every call is built and submitted like a single-element case
+			for _, st := range s[1:] {
+				raw := st["c"].(map[string]any)
+				tr.Emit(drv.Step{"ev": "Submit", "c": raw})
+				if err = w.run(tr, parseCase(raw)); err != nil {
+					break
+				}
+			}
 		default:
 			err = w.runSeq(tr, s[1:])
 		}
@@ -397,6 +415,18 @@ func TestExec(t *testing.T) {
 			return
 		}
 	}
+}
+
+// isForkSeq: a multi-call schedule one of whose calls places or signs its object in another fork version (the calls of
+// every other multi-call schedule carry one and the same signature, see runSeq).
+func isForkSeq(steps []drv.Step) bool {
+	for _, st := range steps {
+		switch drv.Str(st["c"].(map[string]any)["alt"]) {
+		case "wrongFork", "laterFork", "laterForkBad", "straddleOK", "straddleBad":
+			return true
+		}
+	}
+	return false
 }
 
 type acase struct {
@@ -419,9 +449,12 @@ type entry struct {
 // run builds the case's concrete submission, sends it through the real handler and logs the outcome.
 func (w *world) run(tr *drv.Tracer, c acase) error {
 	w.cur = &caseCtx{}
-	if c.alt == "straddleOK" || c.alt == "straddleBad" {
+	switch c.alt {
+	case "straddleOK", "straddleBad":
 		w.place(c.as)
-	} else {
+	case "laterFork", "laterForkBad":
+		w.place("later")
+	default:
 		w.place("")
 	}
 	own := c.node
@@ -550,6 +583,12 @@ func (w *world) build(c acase, own, val int, alt string, ai int, as string) (ent
 	default:
 		if alt == "wrongFork" {
 			epoch += otherForkDelta
+		}
+		if alt == "laterForkBad" { // the object lies in the next fork version, the signer used the previous one
+			if epoch < otherForkDelta {
+				return entry{}, fmt.Errorf("kind %s: laterForkBad needs an object placed in epoch %d, it is in %d", c.kind, laterEpoch, epoch)
+			}
+			epoch -= otherForkDelta
 		}
 		sigData, err = signing.GetDataRoot(w.ctx, w.bmock, dom, epoch, root)
 		if err != nil {
